@@ -9,7 +9,7 @@ import (
 func init() {
 	register(&Check{
 		ID: "C14", Level: "exploration", QuickSecs: 170, ThoroughSecs: 1500,
-		Rule:        "all expressions over {'a','b',%{l},%{m},A} x {?,*,&,!} x seq/choice x recovery operators with label sets {l},{m},{l,m} (nested, side by side, throws inside guarded expressions, repetitions, predicates, later alternatives and inside recovery expressions; recovery expressions that succeed consuming or empty, fail, or throw again) up to N nodes (quick 5, thorough 6) containing at least one throw, rule A from {%{l}, 'a' %{l}, %{m} / 'a', 'a' //{l} 'b'}; inputs over {a,b} up to L=3; 2 generation flag sets. Oracle: reference interpreter with an explicit dynamic handler stack (pushed on entering the guarded expression, popped on leaving it; innermost handler listing the label first, falling through outwards when a recovery expression fails, plain failure if none succeeds, value of the recovery in place of the throw, parsing continues after it). Self-rethrowing handlers: both sides must not terminate normally. Non-trivial = a throw was caught by a handler (reference evaluated a recovery expression).",
+		Rule:        "all expressions over {'a','b',%{l},%{m},A} x {?,*,&,!} x seq/choice x recovery operators with label sets {l},{m},{l,m} (nested, side by side, throws inside guarded expressions, repetitions, predicates, later alternatives and inside recovery expressions; recovery expressions that succeed consuming or empty, fail, or throw again) up to N nodes (quick 5, thorough 6) containing at least one throw, rule A from {%{l}, 'a' %{l}, %{m} / 'a', 'a' //{l} 'b', ('a' %{l}) //{l} 'b', (%{m} / 'a' %{l}) //{l,m} 'b'?}; inputs over {a,b} up to L=3; 2 generation flag sets, and for bodies up to 3 (thorough 4) nodes that use A also -optimize-grammar (with and without -optimize-parser), where A is inlined. Oracle: reference interpreter with an explicit dynamic handler stack (pushed on entering the guarded expression, popped on leaving it; innermost handler listing the label first, falling through outwards when a recovery expression fails, plain failure if none succeeds, value of the recovery in place of the throw, parsing continues after it). Self-rethrowing handlers: both sides must not terminate normally. Non-trivial = a throw was caught by a handler (reference evaluated a recovery expression).",
 		Assumptions: []string{"E1 loader", "labels are not used in this family (scope of recovery blocks is discussed in DESIGN 4.C02)"},
 		Run:         runC14,
 	})
@@ -23,7 +23,12 @@ func runC14(c *ShardCtx) {
 	leaves := []*peg.Expr{peg.Lit("a"), peg.Lit("b"), peg.Throw("l"), peg.Throw("m"), peg.Ref("A")}
 	en := peg.NewEnumerator(peg.Alphabet{Leaves: leaves, Unary: []peg.Kind{peg.KOpt, peg.KStar, peg.KAnd, peg.KNot}, Seq: true, Choice: true, MaxArity: 2,
 		Recover: [][]string{{"l"}, {"m"}, {"l", "m"}}})
-	aRules := []*peg.Expr{peg.Throw("l"), peg.Seq(peg.Lit("a"), peg.Throw("l")), peg.Choice(peg.Throw("m"), peg.Lit("a")), peg.Recover(peg.Lit("a"), peg.Lit("b"), "l")}
+	aRules := []*peg.Expr{peg.Throw("l"), peg.Seq(peg.Lit("a"), peg.Throw("l")), peg.Choice(peg.Throw("m"), peg.Lit("a")), peg.Recover(peg.Lit("a"), peg.Lit("b"), "l"),
+		peg.Recover(peg.Seq(peg.Lit("a"), peg.Throw("l")), peg.Lit("b"), "l"), peg.Recover(peg.Choice(peg.Throw("m"), peg.Seq(peg.Lit("a"), peg.Throw("l"))), peg.Opt(peg.Lit("b")), "l", "m")}
+	optMax := 3
+	if c.Thorough() {
+		optMax = 4
+	}
 	inputs := peg.Inputs([]string{"a", "b"}, 3)
 	fam := &family{gens: gens2, inputs: inputs, opts: []rtapi.RunOpts{{MaxExpr: 800}}, confEvery: 293, confQuota: 1,
 		nontrivial: func(ref *peg.Result, obs *rtapi.Obs) bool {
@@ -55,6 +60,12 @@ func runC14(c *ShardCtx) {
 					g.Rules = append(g.Rules, &peg.Rule{Name: "A", Expr: ar.Clone()})
 				}
 				runGrammar(c, g, fam)
+				// the same through -optimize-grammar (rule A is inlined: a copy of its recovery
+				// operators must handle the same labels)
+				if ar != nil && size <= optMax {
+					optGrammarVsReference(c, g, []core.Gen{{OptGrammar: true}, {OptGrammar: true, Optimize: true}}, inputs, "-optimize-grammar")
+					c.Res.Grammars--
+				}
 			}
 		}
 	}
